@@ -74,6 +74,18 @@ theorem expandShorthand_preserves_curve (cmds out : List (Cmd α)) (segs : List 
     (h : expandShorthand cmds = .ok out) (hi : Spec.interp cmds = some segs) : Spec.interp out = some segs :=
   PathSim.expandShorthand_interp cmds out segs h hi
 
+/-- C09 (the normal form handed to Skia): the first three steps of `as_cmd_seq()` — `explicit_lines`, `expand_shorthand`,
+    `absolute`, in that order — together leave the drawn segments of every meaningful command sequence unchanged (no snapping
+    fires / tolerance 0), and the result has no lowercase command -/
+theorem normal_form_preserves_curve (tol : α) (hns : ∀ p q : Pt α, (p == q) = false → ptAlmostEq tol p q = false)
+    (c0 c1 c2 c3 : List (Cmd α)) (segs : List (Spec.Seg α))
+    (h1 : explicitLines c0 = .ok c1) (h2 : expandShorthand c1 = .ok c2) (h3 : absolute tol c2 = .ok c3)
+    (hi : Spec.interp c0 = some segs) :
+    Spec.interp c3 = some segs ∧ ∀ c ∈ c3, isUpper c.1 = true :=
+  ⟨absolute_preserves_curve tol hns c2 c3 segs h3
+      (expandShorthand_preserves_curve c1 c2 segs h2 (explicitLines_preserves_curve c0 c1 segs h1 hi)),
+   absolute_allUpper tol c2 c3 h3⟩
+
 /-- C09 (relative): absolute → relative rewriting (the walk of `relative()`, before its leading letter is put back to `M`)
     preserves the drawn segments under the same no-snapping condition; exactly at tolerance 0 -/
 theorem relative_preserves_curve (tol : α) (hns : ∀ p q : Pt α, (p == q) = false → ptAlmostEq tol p q = false)
